@@ -6,6 +6,22 @@ TEXT = {
   "level_text": "CPU part: complete enumeration of the stated domain (0..256000 mCPU, shares 2..262144, quota at four periods) against an independent re-implementation of the kubelet encoders, so for the CPU clauses the result is exact, not sampled. Memory part: rapid-generated capacities (thousands per run, seven shapes incl. primes and non-page-aligned values) checked by building the table under recover and round-tripping all 997 Burstable adjustments against the kubelet formula; absence of a failing capacity outside the sample is not established.",
   "level_note": "Trusted: vfkit/kube.go reference formulas (kubelet helpers_linux.go), Go integer/float semantics. Capacity domain sampled, not enumerated.",
  },
+ "C06": {
+  "level_text": "Thousands (quick) to ~10^6 (thorough) generated allocator histories on generated node sets, each operation checked against a reference model of what the statement promises: full observable state (every id's zone, the request list, usage/free of every node subset) unchanged by failed operations and by GetOffer; a twin allocator that never sees offers must agree on every later result (offers are pure, commit of a fresh offer == direct allocate); offers become stale after any successful mutation counted by the model. Sampling, not proof: absence outside the generated histories is not established.",
+  "level_note": "Trusted: the reference model in overlay/libmem (mutation counting, twin construction), Go runtime. Public API only; hidden allocator state is observed only through its effect on later operations of the twin.",
+ },
+ "C07": {
+  "level_text": "Same generated histories as C06, weighted towards overcommit; after every successful operation validity predicates from the statement are evaluated over all node subsets with generator-side capacities (fit), type masks (strict), normal-memory flags, previous assignments (superset moves, immovable reservations, realloc monotone) and the returned update map (both inclusions). One genuine defect is recorded as a known finding by structural signature; any other capacity violation still fails.",
+  "level_note": "Trusted: generator-side capacities and types; predicates in overlay/libmem. Known finding: union-of-incomparable-zones overcommit (known-findings.json).",
+ },
+ "C08": {
+  "level_text": "Generated (machine, candidate set, count, priority, flags) call sequences through the real sysfs discovery and CPU allocator; every call is checked against the stated contract on result and set bookkeeping, and determinism is checked three ways (repeat on the same allocator, a fresh allocator, an allocator over an independently discovered system). Sampling over a large structured space, not exhaustive.",
+  "level_note": "Trusted: vfkit topology model and sysfs writer; own set arithmetic (vfkit.IDSet).",
+ },
+ "C16": {
+  "level_text": "Round trip on generated irregular machines: the model is written as the sysfs files discovery reads, discovered by the real code and every accessor named in the statement is compared with the model (exact equality). Pool-tree part: structural predicates from the statement evaluated on the policy's pools after Setup against the model. Hundreds (quick) to tens of thousands (thorough) of distinct machines.",
+  "level_note": "Trusted: vfkit topology model/writer (files emitted are exactly those discovery reads); memory type of CPU-less nodes predicted by the documented size rule. Sparse node ids and offline CPUs without node links are not generated.",
+ },
 }
 
 _ALL = ["C%02d" % i for i in range(1, 21)]
